@@ -43,6 +43,7 @@ type SpecFunc struct {
 	Body    *SNode
 	Src     string
 	Rec     bool // recursive: emitted as define-fun-rec
+	DefFun  bool // non-recursive over scalars: emitted as define-fun instead of being inlined
 	Opaque  bool
 	Axioms  []*Clause
 	File    string
@@ -69,6 +70,7 @@ type FuncContract struct {
 	Props     []string
 	Wraps     bool // signed arithmetic wraps silently (no overflow obligations)
 	NoTerm    bool
+	NoMerge   bool
 	Ghosts    []*Clause
 	File      string
 	Line      int
@@ -101,8 +103,8 @@ var clauseKeywords = map[string]bool{
 	"decreases": true, "loop": true, "invariant": true, "at": true, "assert": true, "ghost": true,
 	"mode": true, "trusted": true, "inline": true, "pure": true, "axiom": true, "global": true,
 	"type": true, "lemma": true, "props": true, "wraps": true, "unroll": true, "uses": true,
-	"guarded_by": true, "noterm": true, "recspec": true, "opaque": true, "assume": true, "havoc": true,
-	"split": true, "stdlib": true,
+	"guarded_by": true, "noterm": true, "nomerge": true, "recspec": true, "opaque": true, "assume": true, "havoc": true,
+	"split": true, "stdlib": true, "defspec": true,
 }
 
 func parseContractFile(path string, pkg string, pc *PkgContracts) error {
@@ -117,10 +119,17 @@ func parseContractFile(path string, pkg string, pc *PkgContracts) error {
 	var clauses []rawLine
 	for i, ln := range strings.Split(string(data), "\n") {
 		t := strings.TrimSpace(ln)
-		if !strings.HasPrefix(t, "//@") {
-			continue
+		if strings.HasSuffix(path, ".contract") {
+			// assumed-contract files use bare lines
+			if strings.HasPrefix(t, "//@") {
+				t = strings.TrimSpace(t[3:])
+			}
+		} else {
+			if !strings.HasPrefix(t, "//@") {
+				continue
+			}
+			t = strings.TrimSpace(t[3:])
 		}
-		t = strings.TrimSpace(t[3:])
 		if t == "" || strings.HasPrefix(t, "#") {
 			continue
 		}
@@ -192,7 +201,7 @@ func parseContractFile(path string, pkg string, pc *PkgContracts) error {
 			pc.Funcs[name] = cur
 			pc.Order = append(pc.Order, name)
 			curLoop, curAnchor, curGlobal, curType, curSpec = nil, nil, nil, nil, nil
-		case "spec", "recspec":
+		case "spec", "recspec", "defspec":
 			// spec name(a T, b T) R = body
 			eq := strings.Index(rest, "=")
 			// find the '=' that follows the closing paren of the parameter list
@@ -218,7 +227,7 @@ func parseContractFile(path string, pkg string, pc *PkgContracts) error {
 			if k < 0 || k2 < k {
 				return bad("bad spec header %q", head)
 			}
-			sf := &SpecFunc{Name: strings.TrimSpace(head[:k]), Result: strings.TrimSpace(head[k2+1:]), Src: body, Rec: kw == "recspec", File: path, Line: rl.line, Pkg: pkg}
+			sf := &SpecFunc{Name: strings.TrimSpace(head[:k]), Result: strings.TrimSpace(head[k2+1:]), Src: body, Rec: kw == "recspec", DefFun: kw == "defspec", File: path, Line: rl.line, Pkg: pkg}
 			for _, p := range splitTop(head[k+1:k2], ',') {
 				f := strings.Fields(p)
 				if len(f) != 2 {
@@ -290,6 +299,8 @@ func parseContractFile(path string, pkg string, pc *PkgContracts) error {
 			cur.Wraps = true
 		case "noterm":
 			cur.NoTerm = true
+		case "nomerge":
+			cur.NoMerge = true
 		case "props":
 			cur.Props = strings.Fields(rest)
 		case "uses":
